@@ -55,7 +55,13 @@ func startBroker(tag string) (*broker, error) {
 	if err != nil {
 		return nil, err
 	}
-	b.cmd = exec.Command(bin, "-disable-tls", "-addr", b.addr, "-disable-geoip", "-metrics-log", filepath.Join(dir, "metrics.log"))
+	// an allowed-relay pattern is configured so that the rejection path of /proxy
+	// is reachable: polls presenting (or presumed to have) another pattern are refused
+	bl := filepath.Join(dir, "bridges.json")
+	ioutil.WriteFile(bl, []byte(`{"displayName":"default", "webSocketAddress":"wss://snowflake.torproject.net/", "fingerprint":"2B280B23E1107BB62ABFC40DDCC8824814F80A72"}`+"\n"), 0600)
+	// (the relay patterns only take effect together with a bridge list file)
+	b.cmd = exec.Command(bin, "-disable-tls", "-addr", b.addr, "-disable-geoip", "-metrics-log", filepath.Join(dir, "metrics.log"),
+		"-bridge-list-path", bl, "-allowed-relay-pattern", "snowflake.torproject.net$", "-default-relay-pattern", "snowflake.torproject.net$")
 	b.cmd.Stdout = f
 	b.cmd.Stderr = f
 	b.cmd.Env = append(os.Environ(), "GORACE=halt_on_error=0 log_path="+filepath.Join(os.Getenv("VERIF_RACE_DIR"), "broker-"+tag))
@@ -223,7 +229,13 @@ var methods = []string{"GET", "POST", "POST", "POST", "PUT", "DELETE", "OPTIONS"
 var natHeaders = []string{"", "unknown", "restricted", "unrestricted", "bogus", "UNRESTRICTED", " ", "restricted,unrestricted", strings.Repeat("x", 3000)}
 
 func validPoll(r *vlib.Rand, sid string) []byte {
-	j, _ := json.Marshal(map[string]interface{}{"Sid": sid, "Version": "1.3", "Type": "standalone", "NAT": r.PickString([]string{"unknown", "restricted", "unrestricted"}), "Clients": 0, "AcceptedRelayPattern": ""})
+	j, _ := json.Marshal(map[string]interface{}{"Sid": sid, "Version": "1.3", "Type": "standalone", "NAT": r.PickString([]string{"unknown", "restricted", "unrestricted"}), "Clients": 0, "AcceptedRelayPattern": "snowflake.torproject.net$"})
+	return j
+}
+
+// a well-formed poll whose relay pattern the broker must refuse (answered at once)
+func rejectedPoll(r *vlib.Rand, sid string) []byte {
+	j, _ := json.Marshal(map[string]interface{}{"Sid": sid, "Version": "1.3", "Type": r.PickString([]string{"standalone", "webext", "x"}), "NAT": r.PickString([]string{"unknown", "restricted", "unrestricted"}), "Clients": 0, "AcceptedRelayPattern": r.PickString([]string{"example.com$", "^snowflake.torproject.net$", "^x$"})})
 	return j
 }
 func validAnswer(sid string) []byte {
@@ -283,6 +295,9 @@ func genRequest(r *vlib.Rand, id string) *rawReq {
 		body, desc = validPoll(r, ""), "poll without sid"
 		if kind == 0 {
 			body, desc = validPoll(r, sid), "valid poll"
+		}
+		if kind >= 1 && kind <= 3 {
+			body, desc = rejectedPoll(r, sid), "poll with a relay pattern the broker refuses"
 		}
 	case "/client":
 		nat := r.PickString([]string{"", "unknown", "restricted", "unrestricted"})
@@ -382,7 +397,7 @@ func healthProbe(addr string, tag string) string {
 	}
 	pch := make(chan pr, 1)
 	go func() {
-		j, _ := json.Marshal(map[string]interface{}{"Sid": sid, "Version": "1.3", "Type": "standalone", "NAT": "unrestricted", "Clients": 0, "AcceptedRelayPattern": ""})
+		j, _ := json.Marshal(map[string]interface{}{"Sid": sid, "Version": "1.3", "Type": "standalone", "NAT": "unrestricted", "Clients": 0, "AcceptedRelayPattern": "snowflake.torproject.net$"})
 		rs, err := exchange(addr, []*rawReq{{Method: "POST", Target: "/proxy", body: j}}, 30*time.Second)
 		pch <- pr{rs, err}
 	}()
@@ -593,7 +608,7 @@ func legacyEquivalence(res *vlib.Result, root *vlib.Rand) {
 					pwg.Add(1)
 					go func() {
 						defer pwg.Done()
-						j, _ := json.Marshal(map[string]interface{}{"Sid": sid, "Version": "1.3", "Type": "standalone", "NAT": pnat, "Clients": 1000 + i, "AcceptedRelayPattern": ""})
+						j, _ := json.Marshal(map[string]interface{}{"Sid": sid, "Version": "1.3", "Type": "standalone", "NAT": pnat, "Clients": 1000 + i, "AcceptedRelayPattern": "snowflake.torproject.net$"})
 						rs, _ := exchange(b.addr, []*rawReq{{Method: "POST", Target: "/proxy", body: j}}, 30*time.Second)
 						if len(rs) == 1 && strings.Contains(string(rs[0].body), "LEQ-") && scenario == "matched" {
 							exchange(b.addr, []*rawReq{{Method: "POST", Target: "/answer", body: []byte(`{"Version":"1.3","Sid":"` + sid + `","Answer":"LEQ-ANSWER"}`)}}, 30*time.Second)
